@@ -70,6 +70,18 @@ pub fn c01(o: &Opts) -> Outcome {
         }
     }
     let mut rng = Rng(o.seed.wrapping_mul(0x9E3779B97F4A7C15) | 1);
+    // long unambiguous stretches (beyond 2^8 and 2^16 bases: any narrow run counter would wrap), then an ambiguous byte, then more
+    for (len, k) in [(300usize, 3usize), (70_000, 2), (70_000, 31), (66_000, 17), (if o.thorough { 300_000 } else { 131_100 }, 5)] {
+        let mut s = random_seq(&mut rng, len, 0);
+        let n = s.len();
+        s.extend_from_slice(b"N");
+        s.extend(random_seq(&mut rng, 40, 0));
+        cases += 1;
+        if let Some(mut w) = c01_one(&s, k) {
+            for kv in w.iter_mut() { if kv.0 == "seq" { kv.1 = format!("<{} random unambiguous bases, seed {}>N<40 more>", n, o.seed); } }
+            return Outcome { cases, witness: Some(w) };
+        }
+    }
     let n = if o.thorough { 200_000 } else { 30_000 };
     for _ in 0..n {
         let k = 1 + rng.below(31) as usize;
@@ -147,6 +159,15 @@ pub fn c02(o: &Opts) -> Outcome {
         for _ in 0..2000 {
             cases += 1;
             if let Some(w) = c02_code(rng.next() % pow4(k), k) { return Outcome { cases, witness: Some(w) }; }
+        }
+    }
+    // long unambiguous stretches (beyond 2^8 and 2^16 bases)
+    for (len, k) in [(300usize, 4usize), (70_000, 3), (66_000, 31)] {
+        let s = random_seq(&mut rng, len, 0);
+        cases += 1;
+        if let Some(mut w) = c02_seq(&s, k) {
+            for kv in w.iter_mut() { if kv.0 == "seq" { kv.1 = format!("<{} random unambiguous bases, seed {}>", len, o.seed); } }
+            return Outcome { cases, witness: Some(w) };
         }
     }
     for _ in 0..20_000 {
